@@ -226,11 +226,14 @@ def parse (input : List Char) : Except Err Conf :=
 
 /-! ### write -/
 
-/-- first name, then `|name` for every further one -/
-def joinBar : List (List Char) → List Char
+/-- pieces written one after the other with `sep` between them -/
+def joinSep (sep : Char) : List (List Char) → List Char
   | [] => []
   | [n] => n
-  | n :: n2 :: ns => n ++ '|' :: joinBar (n2 :: ns)
+  | n :: n2 :: ns => n ++ sep :: joinSep sep (n2 :: ns)
+
+/-- first name, then `|name` for every further one -/
+abbrev joinBar (ns : List (List Char)) : List Char := joinSep '|' ns
 
 /-- an ingredient without names writes nothing, otherwise its names and a newline -/
 def writeIgr (i : Ingredient) : List Char :=
